@@ -17,7 +17,7 @@ One == {I("GroupBy", "GroupBy", 1), I("GroupBy", "GroupByI", 1)}
 InstSet == CASE InstSetName = "two" -> Two [] InstSetName = "three" -> Three [] InstSetName = "one" -> One [] OTHER -> Two \cup Three
 
 NoSync == {[s |-> 0, k |-> "C"]}
-SyncSet == IF SyncSetName = "ends" THEN {[s |-> x, k |-> kk] : x \in 1..3, kk \in {"C", "E"}} ELSE NoSync
+SyncSet == IF SyncSetName = "ends" THEN {[s |-> x, k |-> kk] : x \in 1..3, kk \in {"C", "E", "U"}} ELSE NoSync
 
 TailSet == IF TailSetName = "cuts" THEN {"Take1", "Throw1"} ELSE {"none"}
 
